@@ -252,6 +252,24 @@ fn exec_op(db: &DB, keys: &[Vec<u8>], thread: usize, op: &TOp, log: &Mutex<Vec<E
                     }
                 }
             }
+            // a snapshot is frozen: reading the keys once more through it gives the same answers,
+            // whatever has been written in between
+            if err.is_none() {
+                let mut again = vec![];
+                for k in ks {
+                    match db_get(db, &keys[*k as usize], Some(&snap)) {
+                        Ok(v) => again.push(v),
+                        Err(e) => {
+                            err = Some(e);
+                            break;
+                        }
+                    }
+                }
+                if err.is_none() && again != vals {
+                    let sh = |v: &Vec<Option<Vec<u8>>>| v.iter().map(|x| x.as_ref().map(|b| show_val(b)).unwrap_or_else(|| "NotFound".into())).collect::<Vec<_>>().join(",");
+                    err = Some(format!("C03 snapshot changed its answer: first [{}], read again through the same snapshot [{}]", sh(&vals), sh(&again)));
+                }
+            }
             db.release_snapshot(snap);
             push(
                 i,
@@ -815,6 +833,8 @@ pub fn judge(prog: &Prog, out: &Outcome, events: &[Event], stale_uses: u64, atom
         if let Res::Err(m) = &e.res {
             let clause = if m.starts_with("C11 directory after quiescence") {
                 "C11.dead_file_kept"
+            } else if m.starts_with("C03 snapshot changed its answer") {
+                "C03.snapshot_not_stable"
             } else if m.starts_with("C08 after the fault") {
                 "C08.concurrent_acknowledged_write_lost"
             } else if m.starts_with("C11 needed file removed") {
